@@ -57,8 +57,9 @@ def check(run):
     for kind in ('tcp', 'udp'):
         f = fx.fn1(PC + '::log_' + kind)
         run.touch(f)
+        q.alias_local(f, 'packet_size', init_re=r'buffer\.size\(\)', pred=lambda v: 'sizeof' in str([x['k'] for x in walk(v['init'])]))
         sub = q.const_local_subst(f)
-        ps = [v for n in f.all_nodes() if n['k'] == 'decl' for v in n['vars'] if v.get('name') == 'packet_size']
+        ps = [v for v in [q.local_var(f, 'packet_size')] if v]
         if not ps:
             run.broke('log_%s: local packet_size not found (renamed?): length rules cannot be evaluated' % kind)
             continue
@@ -71,8 +72,13 @@ def check(run):
         flat = q.flat_calls(f, is_w)
         wsf = [x for x in flat if q.callee_name(x.call) == 'sim::aux::write']
         ws = [x.anchor for x in wsf]
-        args = [x.arg(1) for x in wsf]
         ctxs = [f] + [g for g in {id(x.owner): x.owner for x in wsf}.values() if g is not f]
+        for g in ctxs:      # canonical names for the timestamp locals, whatever they are called
+            q.alias_local(g, 'now', init_re=r'high_resolution_clock::now\(\)$')
+            q.alias_local(g, 'usecs', init_re=r'duration_cast.*time_since_epoch\(\) - ')
+            q.alias_local(g, 'secs', init_re=r'duration_cast\(now\.time_since_epoch\(\)\)')
+            q.alias_local(g, 'sim_start_time', pred=lambda v: q.strip_casts(v['init'])['k'] == 'int' and (q.int_value(v['init']) or 0) > 1000000)
+        args = [x.arg(1) for x in wsf]
         run.check(len(wsf) == 4 and args[2:] == ['packet_size', 'packet_size'], 'R14', 'record-header', PC + '::log_' + kind, f.loc(), 'the record header is not (secs, usecs, packet_size, packet_size): ' + str(args), '16-byte record header with the length written twice')
         seqf = [x for x in flat if q.callee_name(x.call) != 'sim::aux::write']
         names = [q.callee_name(x.call).split('::')[-1] if (q.callee_name(x.call) or '').startswith('sim::aux::') else 'payload' for x in seqf]
@@ -111,8 +117,8 @@ def check(run):
                 why = 'the full microsecond tick count (%s) is narrowed to 32 bits before it is split: timestamps wrap after 2^32 us (71.6 simulated minutes) and go backwards' % t[:90]
         sig_ts[kind] = txts
         run.check(ok_ts and (len(txts) >= 2 or bool(why)), 'R14', 'timestamp-split', PC + '::log_' + kind, f.loc(), why or 'seconds / sub-second microseconds idiom not found', 'seconds narrowed from whole seconds, microseconds from the sub-second remainder')
-        ep = [v for g in ctxs for n in g.all_nodes() if n['k'] == 'decl' for v in n['vars'] if v.get('name') == 'sim_start_time']
-        nowd = [(g, v) for g in ctxs for n in g.all_nodes() if n['k'] == 'decl' for v in n['vars'] if v.get('name') == 'now']
+        ep = [v for g in ctxs for v in [q.local_var(g, 'sim_start_time')] if v]
+        nowd = [(g, v) for g in ctxs for v in [q.local_var(g, 'now')] if v]
         if not ep or not nowd:
             run.broke('log_%s: locals sim_start_time / now not found (renamed?)' % kind)
             continue
